@@ -1,0 +1,24 @@
+//go:build verif
+
+package spao
+
+// Verification hook (build tag verif): exposes the serialized MAC input that
+// ComputeAuthCMAC feeds to the CMAC before the upper-layer payload. Used by the
+// correspondence harness under /verif. No behaviour change.
+
+// VerifAuthenticatedData runs serializeAuthenticatedData on a fresh buffer of
+// MACBufferSize bytes and returns a copy of the bytes it produced.
+func VerifAuthenticatedData(input MACInput) ([]byte, error) {
+	buf := make([]byte, MACBufferSize)
+	n, err := serializeAuthenticatedData(
+		buf,
+		input.ScionLayer,
+		input.Header,
+		input.PldType,
+		input.Pld,
+	)
+	if err != nil {
+		return nil, err
+	}
+	return append([]byte(nil), buf[:n]...), nil
+}
